@@ -1,7 +1,10 @@
 //gosx:package langserver/check
 package check
 
-import "luahelper-lsp/langserver/check/common"
+import (
+	"luahelper-lsp/langserver/check/common"
+	"strconv"
+)
 
 // C04-d: the ranges returned for table members - definition, references and the document outline - cover
 // exactly the member's name. Members are created by constructors, by plain assignments and implicitly as
@@ -12,6 +15,9 @@ var c04dTemplates = []string{
 	/* 1 */ "g = {}\ng.n\x01.p\x02.d\x03 = 1\nq = g.n\x01.p\x02\nr = g.n\x01\n",
 	/* 2 */ "local t = { k\x01 = { m\x02 = 1 } }\nt.k\x01.z\x03 = 2\nq = t.k\x01.m\x02 + t.k\x01.z\x03\n",
 	/* 3 */ "local t = {}\nfunction t.f\x01(x) end\nfunction t:m\x02(y) end\nt.v\x03 = t.f\x01\nt:m\x02()\n",
+	// members reached through an anonymous table literal that a function returns
+	/* 4 */ "local function mk() return { p\x01 = 800, h\x02 = { d\x03 = \"s\" }, f\x01 = function(v) return v end } end\nlocal v = mk()\nq = v.p\x01\nr = v.h\x02.d\x03\nv.f\x01(1)\n",
+	/* 5 */ "function Mk() return { p\x01 = { 1, 2 }, h\x02 = nil } end\nlocal v = Mk()\nq = v.p\x01\nr = v.h\x02\n",
 }
 
 func VerifRun_C04d() {
@@ -42,11 +48,18 @@ func VerifRun_C04d() {
 			if vs.ValidFlag && len(vs.StrVec) > 0 {
 				verifReach("member")
 				vs2 := vpCopyVS(vs)
+				// (when a member cannot be resolved the answer falls back to the variable it is reached
+				// through: that range names the variable, and must cover exactly the variable's name)
+				chain := map[string]bool{name: true}
+				for _, s := range vs.StrVec {
+					chain[s] = true
+				}
 				for _, d := range p.FindVarDefineInfo(file, &vs) {
 					if d.StrFile != file {
 						continue
 					}
-					if x, ok := c04text(src, d.Loc.StartLine, d.Loc.StartColumn, d.Loc.EndColumn); !ok || x != name {
+					if x, ok := c04text(src, d.Loc.StartLine, d.Loc.StartColumn, d.Loc.EndColumn); !ok || !chain[x] {
+						verifObserve("bad-definition", name+" -> "+strconv.Itoa(d.Loc.StartLine)+":"+strconv.Itoa(d.Loc.StartColumn)+"-"+strconv.Itoa(d.Loc.EndColumn)+" "+x)
 						verifViolation("", "the definition range of a table member does not cover exactly the member's name")
 					}
 				}
@@ -54,7 +67,8 @@ func VerifRun_C04d() {
 					if d.StrFile != file {
 						continue
 					}
-					if x, ok := c04text(src, d.Loc.StartLine, d.Loc.StartColumn, d.Loc.EndColumn); !ok || x != name {
+					if x, ok := c04text(src, d.Loc.StartLine, d.Loc.StartColumn, d.Loc.EndColumn); !ok || !chain[x] {
+						verifObserve("bad-reference", name+" -> "+strconv.Itoa(d.Loc.StartLine)+":"+strconv.Itoa(d.Loc.StartColumn)+"-"+strconv.Itoa(d.Loc.EndColumn)+" "+x)
 						verifViolation("", "a reference range of a table member does not cover exactly the member's name")
 					}
 				}
@@ -77,6 +91,8 @@ func VerifRun_C04d() {
 var c04eFiles = [][2]string{
 	{"function Fo\x01(n) return n end\nSe\x02 = { re\x03 = 3 }\nlocal pad = 1\n", "print(Fo\x01(1))\nlocal s = Se\x02.re\x03\nlocal t = Se\x02\nprint(s, t, Fo\x01)\n"},
 	{"local M = {}\nM.fo\x01 = 1\nfunction M.ba\x02(x) return x end\nreturn M\n", "local m = require(\"a\")\nprint(m.fo\x01, m.ba\x02(2))\nm.ba\x02(3)\n"},
+	// a module that returns a table literal directly
+	{"return { wi\x01 = 800, na\x02 = \"demo\", co\x03 = { gr\x01 = 1 }, on\x02 = function(v) return v end }\n", "local c = require(\"a\")\nprint(c.wi\x01, c.na\x02, c.co\x03.gr\x01)\nc.on\x02(1)\n"},
 }
 
 func VerifRun_C04e() {
@@ -112,6 +128,19 @@ func VerifRun_C04e() {
 				vs := GetVarStruct(src, vpLineStarts(src)[line-1]+col, uint32(line-1), uint32(col))
 				if vs.ValidFlag && len(vs.StrVec) > 0 {
 					verifReach("highlight")
+					vsd := vpCopyVS(vs)
+					for _, d := range p.FindVarDefineInfo(files[fi], &vsd) {
+						// (a definition may lie in the other file)
+						dsrc := srcs[0]
+						if d.StrFile == files[1] {
+							dsrc = srcs[1]
+						} else if d.StrFile != files[0] {
+							continue
+						}
+						if x, ok := c04text(dsrc, d.Loc.StartLine, d.Loc.StartColumn, d.Loc.EndColumn); !ok || x != name {
+							verifViolation("", "a definition range (possibly in another file) does not cover exactly the identifier it names")
+						}
+					}
 					for _, d := range p.FindReferences(files[fi], &vs, common.CRSHighlight) {
 						if x, ok := c04text(src, d.Loc.StartLine, d.Loc.StartColumn, d.Loc.EndColumn); !ok || x != name {
 							verifViolation("", "a document-highlight range does not cover the identifier in the requested document")
